@@ -747,9 +747,10 @@ def _w_finder_ties(ctx):
         m = mk()
         nv = m.elem.refdom.nnodes
         rng = random.Random(f"C15ties:{ctx.seed}:{name}")
-        for rep in range(4):
-            warm = [rng.randrange(m.nelements) for _ in range(3)]
-            cells = [rng.randrange(m.nelements) for _ in range(4)]
+        for rep in range(6):
+            # the earlier query is answered with the cells whose facets / vertices are asked next
+            cells = [rng.randrange(m.nelements) for _ in range(rng.randint(1, 2))]
+            warm = list(cells)
             def centre(mm, c):
                 return mm.p[:, mm.t[:nv, c]].mean(axis=1)
             def tie_points(mm):
